@@ -4,7 +4,8 @@ C10, part 3: the interleaved system refines the atomic specification "lookup-or-
 (`Malt.Cache.Spec`), for histories in which distinct code objects have distinct values.
 
 Linearisation points: a request that converts takes effect when it stores the factory (`st2`); a
-request that finds the factory (lock-free or under the lock) takes effect when it returns (`inst`).
+request that finds the factory (lock-free or under the lock) takes effect when it returns (`inst`);
+a request whose conversion raises takes effect when it leaves the critical section (`rel none`).
 -/
 namespace Malt.Cache
 open Spec
@@ -38,13 +39,14 @@ def lin (s : State Opts Factory) : Label → Option SLabel
       match th.todo, th.pc with
       | _ :: _, .st2 _ _ => some (.serve t)
       | _ :: _, .inst _ false => some (.serve t)
+      | _ :: _, .rel none _ => some (.serve t)
       | _, _ => none
 
-def sstepOpt (T : Code → Opts → Nat → Factory) (σ : SState Opts Factory) : Option SLabel → SState Opts Factory
+def sstepOpt (T : Code → Opts → Nat → Option Factory) (σ : SState Opts Factory) : Option SLabel → SState Opts Factory
   | none => σ
   | some l => sstep T σ l
 
-variable (T : Code → Opts → Nat → Factory) (P : List (Request Opts))
+variable (T : Code → Opts → Nat → Option Factory) (P : List (Request Opts))
 
 /-- Distinct keys of the outer dictionary own distinct bucket objects. -/
 def Inj (s : State Opts Factory) : Prop :=
@@ -54,7 +56,7 @@ def Inj (s : State Opts Factory) : Prop :=
 def Own (s : State Opts Factory) : Prop :=
   ∀ (t : Tid) (th : Thread Opts Factory) (r : Request Opts) (rest : List (Request Opts)),
     s.threads[t]? = some th → th.todo = r :: rest →
-    ∀ f, (th.pc = .st1 f ∨ th.pc = .st1c f ∨ ∃ b, th.pc = .st2 f b) → f = T r.code r.opts r.env.sig
+    ∀ f, (th.pc = .st1 f ∨ th.pc = .st1c f ∨ ∃ b, th.pc = .st2 f b) → T r.code r.opts r.env.sig = some f
 
 variable {T P}
 
@@ -154,11 +156,16 @@ theorem Own_step {s : State Opts Factory} (h : Own T s) (l : Label) : Own T (ste
               · simp [hl, hh, applyNext] at hf
               · simp [hl, hh, applyNext, hp] at hf
           | xform =>
-            simp only [action, hp, applyNext] at hf htodo'
-            rw [htodo] at htodo'
-            simp only [List.cons.injEq] at htodo'
-            obtain ⟨rfl, _⟩ := htodo'
-            simpa [eq_comm] using hf
+            simp only [action, hp] at hf htodo'
+            cases hT : T r.code r.opts r.env.sig with
+            | none => simp [hT, applyNext] at hf
+            | some f1 =>
+              simp only [hT, applyNext] at hf htodo'
+              rw [htodo] at htodo'
+              simp only [List.cons.injEq] at htodo'
+              obtain ⟨rfl, _⟩ := htodo'
+              have : f = f1 := by simpa [eq_comm] using hf
+              rw [this]; exact hT
           | st1 f0 =>
             have h0 := hold f0 (Or.inl hp)
             simp only [action, hp] at hf htodo'
@@ -206,7 +213,7 @@ open Spec
 
 section
 variable {Opts Factory : Type} [BEq Opts] [Hashable Opts] [LawfulBEq Opts]
-variable {T : Code → Opts → Nat → Factory} {P : List (Request Opts)}
+variable {T : Code → Opts → Nat → Option Factory} {P : List (Request Opts)}
 
 theorem SState_ext {σ σ' : SState Opts Factory} (h1 : σ.table = σ'.table) (h2 : σ.threads = σ'.threads) :
     σ = σ' := by
@@ -243,7 +250,7 @@ theorem abs_stutter {s : State Opts Factory} {t : Tid} {th : Thread Opts Factory
     exact set_same (abs_get (P := P) hth)
 
 theorem table_eff_same {s : State Opts Factory} (inv : Inv P s) {t : Tid} {th : Thread Opts Factory}
-    {r : Request Opts} {eff : Eff Opts Factory} {nxt : Next Factory} (ok : ActOK s t th r eff nxt)
+    {r : Request Opts} {eff : Eff Opts Factory} {nxt : Next Factory} (ok : ActOK T s t th r eff nxt)
     (hns : ∀ b o f, eff ≠ .store b o f) (c : Code) (o : Opts) :
     table (applyEff s t eff) c o = table s c o := by
   cases eff with
@@ -308,7 +315,7 @@ theorem absThread_todo_sub (th : Thread Opts Factory) : ∀ x ∈ (absThread th)
 
 /-- Forward simulation: every implementation step is a stutter or exactly one atomic step. -/
 theorem sim_step (V : ValInj P) {s : State Opts Factory} (inv : Inv P s) (hinj : Inj s) (hown : Own T s)
-    (l : Label) : abs P (step T s l) = sstepOpt T (abs P s) (lin s l) := by
+    (herr : ErrInv T s) (l : Label) : abs P (step T s l) = sstepOpt T (abs P s) (lin s l) := by
   cases l with
   | gc c =>
     simp only [step, lin, live]
@@ -412,7 +419,11 @@ theorem sim_step (V : ValInj P) {s : State Opts Factory} (inv : Inv P s) (hinj :
             | none => simp [applyNext, absThread, linearised, hp]
             | some hn => obtain ⟨h, n⟩ := hn; by_cases hh : h = t <;> simp [hh, applyNext, absThread, linearised, hp]
         | xform =>
-          apply stut _ hp <;> simp [lin, hth, htodo, hp, action, applyNext, absThread, linearised]
+          apply stut _ hp
+          · simp [lin, hth, htodo, hp]
+          · simp only [action]; cases T r.code r.opts r.env.sig <;> simp
+          · simp only [action]
+            cases T r.code r.opts r.env.sig <;> simp [applyNext, absThread, linearised, hp]
         | st1 f =>
           apply stut _ hp
           · simp [lin, hth, htodo, hp]
@@ -423,33 +434,50 @@ theorem sim_step (V : ValInj P) {s : State Opts Factory} (inv : Inv P s) (hinj :
           apply stut _ hp <;> simp [lin, hth, htodo, hp, action, applyNext, absThread, linearised]
         | rel res own =>
           rw [hp] at hpc
-          obtain ⟨f, rfl, _⟩ := hpc
-          apply stut _ hp
-          · simp [lin, hth, htodo, hp]
-          · simp [hp, action]
-          · cases own <;> simp [hp, action, applyNext, absThread, linearised, htodo]
+          cases res with
+          | some f =>
+            apply stut _ hp
+            · simp [lin, hth, htodo, hp]
+            · simp [action]
+            · cases own <;> simp [hp, action, applyNext, absThread, linearised, htodo]
+          | none =>
+            -- linearisation point of a request whose conversion raised
+            have htab0 : table s r.code r.opts = none := hpc
+            have hT : T r.code r.opts r.env.sig = none := herr.2 t th r rest hth htodo own hp
+            have hlin : lin s (.thr t) = some (.serve t) := by simp [lin, hth, htodo, hp]
+            rw [hlin]
+            simp only [action, sstepOpt, sstep, abs_get (P := P) hth]
+            have habsT : absThread th = { todo := r :: rest, results := th.results } := by
+              simp [absThread, linearised, hp, htodo]
+            simp only [habsT, habs_tab, htab0, hT]
+            apply SState_ext
+            · funext c o
+              simp only [abs, after_table]
+              rfl
+            · rw [abs_after_threads]
+              simp [abs, applyNext, absThread, linearised, htodo]
         | st2 f b =>
           -- linearisation point of a converting request
           rw [hp] at hpc
           obtain ⟨ho, hnone⟩ := hpc
-          have hf : f = T r.code r.opts r.env.sig := hown t th r rest hth htodo f (Or.inr (Or.inr ⟨b, hp⟩))
+          have hf : T r.code r.opts r.env.sig = some f := hown t th r rest hth htodo f (Or.inr (Or.inr ⟨b, hp⟩))
           have htab0 : table s r.code r.opts = none := by rw [table_of_ofind ho]; exact hnone
           have hlin : lin s (.thr t) = some (.serve t) := by simp [lin, hth, htodo, hp]
           rw [hlin]
           simp only [action, sstepOpt, sstep, abs_get (P := P) hth]
           have habsT : absThread th = { todo := r :: rest, results := th.results } := by
             simp [absThread, linearised, hp, htodo]
-          simp only [habsT, habs_tab, htab0]
+          simp only [habsT, habs_tab, htab0, hf]
           apply SState_ext
           · funext c o
             simp only [abs, after_table]
             by_cases hc : c ∈ codes P
             · simp only [hc, if_true]
-              rw [table_store_eq inv V hinj hrP ho hc o, ← hf]
+              rw [table_store_eq inv V hinj hrP ho hc o]
             · have hne : c ≠ r.code := fun h => hc (h ▸ hcP)
               simp [hc, hne]
           · rw [abs_after_threads]
-            simp [abs, applyNext, absThread, linearised, htodo, hf]
+            simp [abs, applyNext, absThread, linearised, htodo]
         | inst f own =>
           rw [hp] at hpc
           have htab1 : table s r.code r.opts = some f := hpc
@@ -484,14 +512,15 @@ theorem abs_init (progs : List (List (Request Opts))) :
 /-- Refinement: for every schedule there is a sequence of atomic specification steps (obtained step
 by step from the schedule) that reaches the abstraction of the implementation's state. -/
 theorem refines_from (V : ValInj P) (sched : List Label) :
-    ∀ {s : State Opts Factory}, Inv P s → Inj s → Own T s →
+    ∀ {s : State Opts Factory}, Inv P s → Inj s → Own T s → ErrInv T s →
       ∃ ls : List SLabel, srun T (abs P s) ls = abs P (run T s sched) := by
   induction sched with
-  | nil => intro s _ _ _; exact ⟨[], rfl⟩
+  | nil => intro s _ _ _ _; exact ⟨[], rfl⟩
   | cons l rest ih =>
-    intro s inv hinj hown
+    intro s inv hinj hown herr
     obtain ⟨ls, hls⟩ := ih (Inv_step (T := T) V inv l) (Inj_step (T := T) inv hinj l) (Own_step hown l)
-    rw [sim_step V inv hinj hown l] at hls
+      (ErrInv_step inv herr l)
+    rw [sim_step V inv hinj hown herr l] at hls
     cases hl : lin s l with
     | none =>
       rw [hl] at hls
@@ -499,6 +528,84 @@ theorem refines_from (V : ValInj P) (sched : List Label) :
     | some x =>
       rw [hl] at hls
       exact ⟨x :: ls, hls⟩
+
+end
+
+end Malt.Cache
+
+namespace Malt.Cache
+open Spec
+
+section
+variable {Opts Factory : Type} [BEq Opts] [Hashable Opts] [LawfulBEq Opts]
+variable {T : Code → Opts → Nat → Option Factory} {P : List (Request Opts)}
+
+/-- In the specification, serving a request changes at most the table entry of its own key. -/
+theorem sstep_serve_frame (σ : SState Opts Factory) (t : Tid) (c : Code) (o : Opts)
+    (h : (sstep T σ (.serve t)).table c o ≠ σ.table c o) :
+    ∃ th r rest, σ.threads[t]? = some th ∧ th.todo = r :: rest ∧ r.code = c ∧ r.opts = o := by
+  unfold sstep at h
+  cases hth : σ.threads[t]? with
+  | none => simp [hth] at h
+  | some th =>
+    cases htodo : th.todo with
+    | nil => simp [hth, htodo] at h
+    | cons r rest =>
+      simp only [hth, htodo] at h
+      cases htab : σ.table r.code r.opts with
+      | some f => simp [htab] at h
+      | none =>
+        simp only [htab] at h
+        cases hT : T r.code r.opts r.env.sig with
+        | none => simp [hT] at h
+        | some f =>
+          simp only [hT] at h
+          by_cases hk : c = r.code ∧ (o == r.opts) = true
+          · exact ⟨th, r, rest, rfl, htodo, hk.1.symm, (eq_of_beq hk.2).symm⟩
+          · simp at h
+            exact absurd ⟨h.1, by simp [h.2.1]⟩ hk
+
+/-- **Frame**: a thread step changes the lookup of a (code object of the history, options) pair only
+if that pair is the key of the request the thread is executing. -/
+theorem table_frame (V : ValInj P) {s : State Opts Factory} (inv : Inv P s) (hinj : Inj s) (hown : Own T s)
+    (herr : ErrInv T s) (t : Tid) {c : Code} (hc : c ∈ codes P) (o : Opts)
+    (h : table (step T s (.thr t)) c o ≠ table s c o) :
+    ∃ th r rest, s.threads[t]? = some th ∧ th.todo = r :: rest ∧ r.code = c ∧ r.opts = o := by
+  have hsim := sim_step (T := T) V inv hinj hown herr (.thr t)
+  have h1 : (abs P (step T s (.thr t))).table c o = table (step T s (.thr t)) c o := by simp [abs, hc]
+  have h2 : (abs P s).table c o = table s c o := by simp [abs, hc]
+  rw [← h1, ← h2, hsim] at h
+  cases hl : lin s (.thr t) with
+  | none => rw [hl] at h; exact absurd rfl h
+  | some x =>
+    rw [hl] at h
+    -- `lin` only ever answers `serve t` for a thread step, and only for a thread that is not linearised
+    simp only [lin] at hl
+    cases hth : s.threads[t]? with
+    | none => simp [hth] at hl
+    | some th =>
+      simp only [hth] at hl
+      cases htodo : th.todo with
+      | nil => simp [htodo] at hl
+      | cons r rest =>
+        have hx : x = .serve t ∧ absThread th = { todo := r :: rest, results := th.results } := by
+          cases hp : th.pc <;> simp [htodo, hp] at hl
+          case st2 f b => exact ⟨hl.symm, by simp [absThread, linearised, hp, htodo]⟩
+          case inst f own =>
+            cases own <;> simp at hl
+            exact ⟨hl.symm, by simp [absThread, linearised, hp, htodo]⟩
+          case rel res own =>
+            cases res <;> simp at hl
+            exact ⟨hl.symm, by simp [absThread, linearised, hp, htodo]⟩
+        obtain ⟨rfl, habs⟩ := hx
+        obtain ⟨th', r', rest', hth', htodo', hc', ho'⟩ := sstep_serve_frame (T := T) _ t c o h
+        rw [abs_get (P := P) hth] at hth'
+        simp only [Option.some.injEq] at hth'
+        subst hth'
+        rw [habs] at htodo'
+        simp only [List.cons.injEq] at htodo'
+        obtain ⟨rfl, rfl⟩ := htodo'
+        exact ⟨th, r, rest, rfl, htodo, hc', ho'⟩
 
 end
 
